@@ -172,7 +172,7 @@ fn check(run: &mut Run, sub: &Subject, f: &PreprocessingFn, text: &str, g: bool,
     }
     // clean at the level the mode works on
     if !refs::is_clean(&input, g) {
-        run.violation("input-clean", class, case(), format!("input {input:?} is not whitespace-clean"));
+        run.violation("input-clean", "", case(), format!("input {input:?} is not whitespace-clean"));
     }
     if same_content {
         let (tg, ig) = (gap_vector(text), gap_vector(&input));
